@@ -352,7 +352,9 @@ func CompileList(list List) (f Object) {
 				lc := Lambda{
 					Doc: &FuncDoc{
 						Name: name,
-						Args: []*DocArg{},
+						// Until the function is defined any arguments are
+						// accepted so that a call signals undefined-function.
+						Args: []*DocArg{{Name: AmpRest}, {Name: "args"}},
 					},
 					Forms: List{Undefined(name)},
 				}
